@@ -12,6 +12,99 @@ FLOADERS = {"_cbor_load_half": 2, "_cbor_load_float": 4, "_cbor_load_double": 8}
 class Unsupported(Exception):
     pass
 
+# ---- AUDIT2: what cast.expr normalises away but must not be ignored -----------------------------------------------
+_BITS = {"size_t": 64, "uint64_t": 64, "unsigned long": 64, "long": 64, "unsigned long long": 64, "long long": 64, "uint32_t": 32,
+         "unsigned int": 32, "int": 32, "uint16_t": 16, "unsigned short": 16, "short": 16, "uint8_t": 8, "unsigned char": 8,
+         "char": 8, "signed char": 8, "int8_t": 8, "int16_t": 16, "int32_t": 32, "int64_t": 64, "bool": 1, "_Bool": 1}
+def _bits(n):
+    t = n.get("type", {})
+    q = (t.get("desugaredQualType") or t.get("qualType") or "").replace("const ", "").strip()
+    return _BITS.get(q)
+
+def narrowing_inside(n, top=True):
+    """does the expression contain an integral conversion to a NARROWER type (explicit or implicit) below its outermost
+    conversion?  cast.expr drops every cast, so `(uint32_t)_cbor_load_uint64(source + 1)` looked like the plain load.  The
+    outermost conversion is the one to the callback's parameter type, which the model applies itself."""
+    if not isinstance(n, dict):
+        return False
+    k = n.get("kind")
+    if k in ("ImplicitCastExpr", "CStyleCastExpr") and n.get("castKind") == "IntegralCast" and n.get("inner"):
+        to, frm = _bits(n), _bits(n["inner"][-1])
+        lit = cast.strip(n["inner"][-1]).get("kind") == "IntegerLiteral"
+        if not top and not lit and (to is None or frm is None or to < frm):
+            return True
+        return narrowing_inside(n["inner"][-1], False)
+    if k in ("ImplicitCastExpr", "CStyleCastExpr") and n.get("castKind") not in (None, "LValueToRValue", "NoOp", "FunctionToPointerDecay", "ArrayToPointerDecay", "BitCast", "IntegralCast"):
+        if n.get("castKind") == "IntegralToBoolean" and n.get("inner") and cast.strip(n["inner"][-1]).get("kind") == "IntegerLiteral":
+            return False     # `false` / `true`
+        return True          # float <-> int, int -> bool, ... inside an argument
+    return any(narrowing_inside(c, top if k in ("ParenExpr", "ConstantExpr") else False) for c in n.get("inner", []))
+
+def status_only(il, status):
+    """an initialiser of struct cbor_decoder_result that sets .status = <status> and leaves every other member zero"""
+    if il.get("kind") != "InitListExpr":
+        return False
+    named = 0
+    for x in il.get("inner", []):
+        if x.get("kind") == "ImplicitValueInitExpr":
+            continue
+        if cast.mentions(x, status) and cast.strip(x).get("kind") == "DeclRefExpr":
+            named += 1
+            continue
+        if cast.expr(x) == ("int", 0):
+            continue
+        return False
+    return named == 1
+
+# the loaders the rows name are trusted BY NAME by the table below; the integer ones of 2 / 4 / 8 bytes are translated and
+# bridged by leaf.py, the others are compared here with the one shape the model assumes
+def loader_shapes_ok(incs, defs):
+    """names of the loaders whose body is not the recognised one (rows that use them become unsupported)"""
+    src = os.path.join(cast.REPO, "src/cbor/internal/loaders.c")
+    bad = []
+    def body_of(name):
+        docs = cast.ast_dump(src, incs, name, defs)
+        fn, body = cast.function_body(docs, name)
+        if body is None:
+            return None, None
+        params = [p.get("name") for p in fn.get("inner", []) if p.get("kind") == "ParmVarDecl"]
+        return params, [x for x in body.get("inner", []) if x.get("kind") not in ("NullStmt",)]
+    def ret_expr(st):
+        return st["inner"][0] if st.get("kind") == "ReturnStmt" and st.get("inner") else None
+    try:
+        params, b = body_of("_cbor_load_uint8")
+        r = ret_expr(b[0]) if b and len(b) == 1 else None
+        if not (params == ["source"] and r is not None and cast.expr(r) == ("un", "*", ("var", "source")) and _bits(r) == 8
+                and not narrowing_inside(r["inner"][-1] if r.get("kind") == "CStyleCastExpr" else r)):
+            bad.append("_cbor_load_uint8")
+    except (RuntimeError, KeyError, IndexError, TypeError):
+        bad.append("_cbor_load_uint8")
+    try:
+        params, b = body_of("_cbor_load_half")
+        r = ret_expr(b[0]) if b and len(b) == 1 else None
+        if not (params == ["source"] and r is not None and cast.expr(r) == ("call", ("var", "_cbor_decode_half"), [("var", "source")])):
+            bad.append("_cbor_load_half")
+    except (RuntimeError, KeyError, IndexError, TypeError):
+        bad.append("_cbor_load_half")
+    for name, inner, arm_in, arm_out in (("_cbor_load_float", "_cbor_load_uint32", "as_uint", "as_float"),
+                                         ("_cbor_load_double", "_cbor_load_uint64", "as_uint", "as_double")):
+        try:
+            params, b = body_of(name)
+            ok = params == ["source"] and b is not None and len(b) == 2 and b[0].get("kind") == "DeclStmt" and len(b[0]["inner"]) == 1
+            if ok:
+                d = b[0]["inner"][0]
+                init = [x for x in d.get("inner", []) if x.get("kind") == "InitListExpr"]
+                ok = (len(init) == 1 and init[0].get("field", {}).get("name") == arm_in and len(init[0].get("inner", [])) == 1
+                      and cast.expr(init[0]["inner"][0]) == ("call", ("var", inner), [("var", "source")])
+                      and not narrowing_inside(init[0]["inner"][0]))
+                r = ret_expr(b[1])
+                ok = ok and r is not None and cast.expr(r) == ("member", arm_out, ("var", d.get("name")))
+            if not ok:
+                bad.append(name)
+        except (RuntimeError, KeyError, IndexError, TypeError):
+            bad.append(name)
+    return bad
+
 def flatten(stmt):
     """statement -> flat list of simple statements (compound / do-while(0) unwrapped)"""
     k = stmt.get("kind")
@@ -80,6 +173,9 @@ def interp(stmts, env, ops):
             if e == ("var", "result"):
                 ops.append(("ret",))
             elif e[0] == "complit" and cast.mentions(s, "CBOR_DECODER_ERROR") and not cast.mentions(s, "result"):
+                cl = cast.strip(s["inner"][0])
+                if not (cl.get("kind") == "CompoundLiteralExpr" and cl.get("inner") and status_only(cl["inner"][0], "CBOR_DECODER_ERROR")):
+                    raise Unsupported("error result with members other than .status set")      # AUDIT2
                 ops.append(("reterr",))
             else:
                 raise Unsupported("return of an unrecognised value")
@@ -93,6 +189,8 @@ def interp(stmts, env, ops):
             kexpr = is_claim(cast.expr(inner[0]))
             if kexpr is None:
                 raise Unsupported("if on something other than claim_bytes")
+            if narrowing_inside(inner[0], False):
+                raise Unsupported("narrowing conversion in the arguments of claim_bytes")      # AUDIT2
             sub_ops = []
             interp(flatten(inner[1]), dict(env), sub_ops)
             ops.append(("claim", subst(kexpr, env), sub_ops))
@@ -101,11 +199,22 @@ def interp(stmts, env, ops):
             for d in s.get("inner", []):
                 if d.get("kind") != "VarDecl" or not d.get("inner"):
                     raise Unsupported("declaration")
+                if narrowing_inside(d["inner"][-1]) or (_bits(d) or 0) < 64:
+                    raise Unsupported("narrowing conversion in the initialiser of a local")      # AUDIT2
                 env[d["name"]] = subst(cast.expr(d["inner"][-1]), env)
             continue
         if k == "CallExpr":
             e = cast.expr(s)
             if e[0] == "mcall":
+                # AUDIT2: the callee must be a member of the `callbacks` PARAMETER (cast.expr keeps only the member name:
+                # `cbor_empty_callbacks.uint8(context, ..)` gave the same row), and no argument may hide a narrowing cast
+                callee = cast.strip(s["inner"][0])
+                base = cast.strip(callee["inner"][0]) if callee.get("inner") else {}
+                if not (callee.get("isArrow") and base.get("kind") == "DeclRefExpr" and base.get("referencedDecl", {}).get("kind") == "ParmVarDecl"
+                        and base["referencedDecl"].get("name") == "callbacks"):
+                    raise Unsupported("callback not taken from the callbacks parameter")
+                if any(narrowing_inside(a) for a in s["inner"][1:]):
+                    raise Unsupported("narrowing conversion inside a callback argument")
                 args = [subst(a, env) for a in e[2]]
                 if not args or args[0] != ("var", "context"):
                     raise Unsupported("callback without context")
@@ -192,7 +301,13 @@ def case_groups(switch_body):
                 lab = cast.expr(cur["inner"][0])
                 if lab[0] != "int":
                     raise Unsupported("case label")
-                labels.append(lab[1])
+                if len(cur["inner"]) == 3:      # AUDIT2: GNU range `case lo ... hi:` (only the low bound was read)
+                    hi = cast.expr(cur["inner"][1])
+                    if hi[0] != "int" or not (lab[1] <= hi[1] < 256):
+                        raise Unsupported("case range")
+                    labels += list(range(lab[1], hi[1] + 1))
+                else:
+                    labels.append(lab[1])
                 cur = cur["inner"][-1]
             body = [cur]
             i += 1
@@ -218,6 +333,11 @@ def prologue_ok(body):
         return False
     if not cast.mentions(d, "CBOR_DECODER_FINISHED"):
         return False
+    # AUDIT2: ... and nothing but .status = FINISHED (read and required start at 0)
+    vd = [x for x in d.get("inner", []) if x.get("kind") == "VarDecl"]
+    il = [x for x in (vd[0].get("inner", []) if len(vd) == 1 else []) if x.get("kind") == "InitListExpr"]
+    if len(vd) != 1 or vd[0].get("name") != "result" or len(il) != 1 or not status_only(il[0], "CBOR_DECODER_FINISHED"):
+        return False
     c = cast.expr(i["inner"][0])
     if not (c[0] == "un" and c[1] == "!" and is_claim(c[2]) == ("int", 1)):
         return False
@@ -238,8 +358,16 @@ def translate(incs, defs=()):
         groups = case_groups(sw["inner"][-1])
     except Unsupported as u:
         return None, ["cbor_stream_decode: switch structure: %s" % u]
+    try:
+        bad_loaders = loader_shapes_ok(incs, defs)      # AUDIT2
+    except Exception as e:
+        bad_loaders = list(LOADERS) + list(FLOADERS)
+    for bl in bad_loaders:
+        notes.append("loader %s: body is not the recognised one (rows using it are not translated)" % bl)
     for labels, stmts in groups:
         try:
+            if bad_loaders and any(cast.mentions(x, bl) for x in stmts for bl in bad_loaders):
+                raise Unsupported("uses the unrecognised loader(s) " + ", ".join(bl for bl in bad_loaders if any(cast.mentions(x, bl) for x in stmts)))
             flat = []
             for s in stmts:
                 flat += flatten(s)
